@@ -19,6 +19,61 @@ NOT_BUILT = ("check not built yet in this round (planned in DESIGN.md section 9)
 NOT_APPLICABLE = {}
 
 CLAIMED = {
+    "C03": {
+        "text": "spec/Server.tla models the connection lifecycle with its exception flow (ReadLine, SelectProtocol outside the "
+                "try, handler steps, Write(k) with failing twins, CatchInProtocol, CatchInServer, log records) and "
+                "spec/Grammar.tla the response grammars of DESIGN.md Appendix E.5; MC_C03 enumerates malformed and boundary "
+                "requests per protocol x selector/argument shape against a tree with every handler's content kind and checks "
+                "OneResponse, NoUnhandled, Bounded, Terminates; MC_C03_hist is the self-composition for HistoryFree (histories "
+                "of read-only requests, exhaustive to length 2, simulated beyond). Every enumerated request/history is sent "
+                "to the real server; alpha lexes the bytes into frames and counts environment operations; TraceC03 judges "
+                "the grammar, the log classes and history independence.",
+        "note": "Trusted: TLC; frame lexers in harness/c03_lib.py; Bounded counts environment operations, not wall-clock. Two known "
+                "findings (cache artefacts fetchable by exact selector; PYG loading leaves __pycache__ in the served tree).",
+    },
+    "C04": {
+        "text": "PARTIAL FIT, stated plainly: spec/Deliver.tla decides the copy loop (every read-size schedule for sizes around "
+                "multiples of the block), Gopher+ length, HEAD = GET headers, advertised type = configured tables' answer "
+                "(tables computed in a clean interpreter and handed to TLC as data), and the WAP text->WML conversion with "
+                "its inverse on byte classes; MC_C04 enumerates size class x content class x name class x handler list x "
+                "request family. Every model case becomes a real file fetched through the real server (in memory, and over a "
+                "socketpair with real TLS for decompression); read schedules are imposed on the real loop by a substituted "
+                "open(). Byte identity itself is computed by the harness per case (flag eq) and only judged by TraceC04 "
+                "(Delivered, TypeTruthful, LenTruthful, BodyExact, WmlInvertible, HeadNoBody, HeadIsGetHeaders).",
+        "note": "Trusted: TLC; byte comparison and WML lexer in harness/c04.py; contents are class representatives, not arbitrary "
+                "bytes; WAP invertibility is up to trailing white space of a line (the code's rstrip).",
+    },
+    "C07": {
+        "text": "spec/Dir.tla (shared with C12) with Visible() using the SHIPPED ignore pattern imported from the tree as data; "
+                "MC_C07 enumerates probe names on both sides of every alternative of the pattern, dot-files, dot-directories, "
+                "metadata-hidden entries, pairs of link files, under EVERY permutation of the OS enumeration order and both "
+                "directory handlers, and checks Exact and OrderFree (the pinned-order variant must violate OrderFree: vacuity "
+                "witness). Every directory is built for real, every permutation is handed out by a substituted os.listdir, "
+                "every child is then fetched by exact selector; TraceC07 judges Exact.*, OrderFree (all listings of one "
+                "directory equal, inside TLC) and StillRetrievable.",
+        "note": "Trusted: TLC; harness/c07.py + c12_dirlib.py; regex subset of the shipped patterns; Gopher view only. One known "
+                "finding: plain dir.DirHandler lists dot-files the shipped pattern does not match (documented behaviour).",
+    },
+    "C16": {
+        "text": "spec/Zip.tla transcribes VFSZip.populate_cache (inode table, directory synthesis, symlink fix-point loop with "
+                "its memo tables), the look-up, ZIPHandler's walk-up and the real-file-only guards, next to a kernel-like "
+                "reference (links resolved among members only); MC_C16 runs it as a state machine over every member list in "
+                "every order within bounds and checks Same (stat/isdir/isfile/listdir/open), Inside, RealOnly. Every final "
+                "state becomes a real archive plus a real twin directory, requested per selector and protocol through the "
+                "real server with the index cache absent and present; TraceC16 judges twin vs archive (SameStatus, SameType, "
+                "SameListing, SameBytes), LinksStayInside (canaries), RealOnly (audit events) and binds the reference to the "
+                "kernel (RefIsKernel).",
+        "note": "Trusted: TLC; harness/c16.py (archive builder, alpha, audit hook); nested archives and conflicting member names "
+                "excluded. One known finding: lexical '..' in link targets (k->l/../a).",
+    },
+    "C20": {
+        "text": "spec/Server.tla write path: MC_C20 enumerates response kind x protocol x failing write index x error class "
+                "(EPIPE, ECONNRESET, single-argument timeout) and checks Contained, OwnClass, FilesClosed on the exception flow "
+                "as coded. On the real server the writes of a fault-free run are counted and then EVERY write index fails with "
+                "each class; alpha records what left handle(), the log records after the failure and /proc/self/fd before and "
+                "after; TraceC20 judges the three clauses.",
+        "note": "Trusted: TLC; failing wfile of harness/world.py; fd comparison after gc.collect().",
+    },
     "C08": {
         "text": "spec/UMN.tla transcribes handlers/UMN.py as coded (block parser as a state machine over lines, .cap merge, "
                 "MergeLinkFiles with object identity, entrycmp) next to the reading of the manual pinned in DESIGN.md Appendix "
